@@ -495,3 +495,49 @@ func seedEnv() int {
 	fmt.Sscanf(os.Getenv("VERIF_SEED"), "%d", &n)
 	return n
 }
+
+// ---------- fixtures (positive controls) ----------
+
+type fixture struct {
+	pkgs  []*packages.Package
+	prog  *ssa.Program
+	funcs []*ssa.Function
+}
+
+// loadFixture loads /verif/checker/testdata/<name> (its own stdlib-only module) with SSA.
+func loadFixture(c *Ctx, name string) (*fixture, error) {
+	dir := filepath.Join(c.Verif, "checker", "testdata", name)
+	if _, err := os.Stat(dir); err != nil {
+		// when run against a scratch verif dir (mutant runs) fall back to the real one
+		dir = filepath.Join("/verif", "checker", "testdata", name)
+	}
+	cfg := &packages.Config{Mode: packages.LoadAllSyntax, Dir: dir, Env: append(os.Environ(), "GOFLAGS=-mod=mod", "GOPROXY=off", "GOWORK=off")}
+	pkgs, err := packages.Load(cfg, "./...")
+	if err != nil {
+		return nil, err
+	}
+	if len(pkgs) == 0 {
+		return nil, fmt.Errorf("no packages in fixture %s", name)
+	}
+	for _, p := range pkgs {
+		if len(p.Errors) > 0 {
+			return nil, fmt.Errorf("fixture %s: %v", name, p.Errors[0])
+		}
+	}
+	prog, spkgs := ssautil.AllPackages(pkgs, ssa.InstantiateGenerics)
+	prog.Build()
+	fx := &fixture{pkgs: pkgs, prog: prog}
+	for _, sp := range spkgs {
+		if sp == nil {
+			continue
+		}
+		for _, m := range sp.Members {
+			if f, ok := m.(*ssa.Function); ok {
+				fx.funcs = append(fx.funcs, f)
+				fx.funcs = append(fx.funcs, f.AnonFuncs...)
+			}
+		}
+	}
+	sort.Slice(fx.funcs, func(i, j int) bool { return fx.funcs[i].String() < fx.funcs[j].String() })
+	return fx, nil
+}
